@@ -6,6 +6,8 @@ package main
 // byte with what the source sent, and the run id / offset / size used afterwards with the announced ones.
 
 import (
+	"fmt"
+	"path/filepath"
 	"sync"
 	"encoding/json"
 	"io"
@@ -160,6 +162,61 @@ func hoRun(in []byte) (interface{}, error) {
 			}
 		}
 		switch c.Mode {
+		case "dump-main":
+			// the whole dump command over TWO sources (the second one serves another RDB), source.rdb.parallel 1 or 2:
+			// every source ends up, byte for byte, in its own output file <output>.<i>
+			rdb2 := make([]byte, c.N/2+1)
+			rnd.Read(rdb2)
+			copy(rdb2, "REDIS0008")
+			src2 := fakesrc.New(fakesrc.Script{RunID: runid, Offset: c.Offset, PreNewlines: c.MidNewlines, RDB: rdb2, Stream: stream, Frags: c.Frags, PauseUs: c.PauseUs}, nil)
+			addr2, err := src2.Listen()
+			if err != nil {
+				return nil, err
+			}
+			base := filepath.Join(cfg.Dir, fmt.Sprintf("dumpmain-%d", c.Id))
+			conf.Options.SourceAddressList = []string{addr, addr2}
+			conf.Options.SourcePasswordRaw = ""
+			conf.Options.TargetRdbOutput = base
+			conf.Options.SourceRdbParallel = 1 + c.Id%2
+			conf.Options.ExtraInfo = false
+			var ab *abortInfo
+			var pan string
+			fin := make(chan struct{})
+			go func() {
+				ab, pan = runAbortableOwn(func() { (&run.CmdDump{}).Main() })
+				close(fin)
+			}()
+			select {
+			case <-fin:
+			case <-time.After(2 * hoBudget(c)):
+				ev["hung"] = true
+				src.Close()
+				src2.Close()
+				<-fin
+			}
+			f0, _ := ioutil.ReadFile(base + ".0")
+			f1, _ := ioutil.ReadFile(base + ".1")
+			os.Remove(base + ".0")
+			os.Remove(base + ".1")
+			src2.Close()
+			ev["abort"] = ab != nil
+			ev["panic"] = pan
+			ev["n_reported"] = int64(c.N)
+			ev["file_len"] = len(f0)
+			ev["file_diff"] = firstDiff(f0, rdbBytes)
+			if d2 := firstDiff(f1, rdb2); d2 != -1 || len(f1) != len(rdb2) {
+				// the second source's file is wrong: report it in the same fields
+				ev["file_len"], ev["file_diff"] = len(f1)-len(rdb2)+c.N, d2
+				if d2 == -1 {
+					ev["file_diff"] = len(f1)
+				}
+			}
+			ev["rest_len"], ev["rest_diff"] = 0, -1
+			ev["out_len"], ev["out_diff"] = len(want), -1
+			ev["runid_ok"], ev["offset_used"], ev["full"] = true, c.Offset, true
+			ev["reconnects"], ev["re_runid_ok"], ev["re_off_ok"] = 0, true, true
+			ev["mode"] = "dump"
+			ev["dump_main"] = true
 		case "dump":
 			f, _ := ioutil.TempFile(cfg.Dir, "dump-*.rdb")
 			name := f.Name()
